@@ -236,7 +236,7 @@ def addresses():
             h = bytes(r.getrandbits(8) for _ in range(20))
             a = network.address.for_p2pkh(h) if i % 3 else network.address.for_p2sh(h)
             ADDRS.append((a, network.contract.for_address(a)))
-        a = network.address.for_p2wpkh(bytes(r.getrandbits(8) for _ in range(20)))
+        a = network.address.for_p2pkh_wit(bytes(r.getrandbits(8) for _ in range(20)))
         ADDRS.append((a, network.contract.for_address(a)))
     return ADDRS
 
@@ -548,7 +548,8 @@ def model_cases(rng, tier):
         e = rng.choice([-8, -5, 0, 2, -20, a[2], a[2] + rng.randint(-31, 31)])
         yield Case("dec_quantize %s %s" % (a_dec(a), canon(e)), (lambda a=a, e=e: call13(impl_quantize, a, e)))
         yield Case("dec_to_int " + a_dec(a), (lambda a=a: call13(lambda: int(mk_dec(a)))))
-        yield Case("dec_fix " + a_dec(a), (lambda a=a: call13(lambda: c_dec(+mk_dec(a)))))
+        if a[1] != 0:   # unary plus also turns -0 into +0, which is __pos__'s doing, not _fix's
+            yield Case("dec_fix " + a_dec(a), (lambda a=a: call13(lambda: c_dec(+mk_dec(a)))))
     for k in range(0, 62):
         for c in (10 ** k - 1, 10 ** k, 10 ** k + 1):
             if c >= 0:
@@ -694,8 +695,12 @@ def chk_decimal(s):
         if s != 0 and d.as_tuple().exponent != -places:
             return {"kind": "satoshi_to_%s-exponent" % name, "got": str(d)}
         txt = str(d)
-        if s != 0 and txt != fmt_fixed(s, places):
-            return {"kind": "str-form-%s" % name, "got": txt, "expected": fmt_fixed(s, places)}
+        # str() switches to scientific notation for small values ('1E-8'): Python's choice; the fixed-point
+        # rendering must be the exact digits, and str() must parse back to the same Decimal
+        if s != 0 and format(d, "f") != fmt_fixed(s, places):
+            return {"kind": "fixed-form-%s" % name, "got": format(d, "f"), "expected": fmt_fixed(s, places)}
+        if decimal.Decimal(txt) != d or decimal.Decimal(txt).as_tuple() != d.as_tuple():
+            return {"kind": "str-reparse-%s" % name, "got": txt}
         for arg_ in (d, txt, fmt_fixed(s, places), decimal.Decimal(fmt_fixed(s, places))):
             back = from_d(arg_)
             if back != s or type(back) is not int:
